@@ -302,6 +302,48 @@ func c11Run(o *common.Out, id, kind, cfg string, ops []selOp) {
 	o.Case(id, model.String(), strings.Join(obs, " "), nsel > 0 && len(cur) >= 1)
 }
 
+// how many trailing operations of ops are not updates
+func lastSelects(ops []selOp) int {
+	n := 0
+	for i := len(ops) - 1; i >= 0 && !ops[i].update; i-- {
+		n++
+	}
+	return n
+}
+
+func reannounce(r *common.Rand, kind string, prev [][2]string) [][2]string {
+	out := make([][2]string, len(prev))
+	copy(out, prev)
+	if len(out) == 0 {
+		return out
+	}
+	switch kind {
+	case "wrr":
+		if len(out) >= 2 && r.Bool() {
+			// drain one server in favour of another: same addresses, same sum of weights
+			i := r.Intn(len(out))
+			j := (i + 1 + r.Intn(len(out)-1)) % len(out)
+			wi, wj := effWeight(out[i][1]), effWeight(out[j][1])
+			out[i][1] = fmt.Sprintf("weight=%d", wi+wj)
+			out[j][1] = "weight=0"
+		} else {
+			// the weights change hands
+			for i := len(out) - 1; i > 0; i-- {
+				j := r.Intn(i + 1)
+				out[i][1], out[j][1] = out[j][1], out[i][1]
+			}
+		}
+	default:
+		fresh := genServers(r, kind)
+		for i := range out {
+			if i < len(fresh) {
+				out[i][1] = fresh[i][1]
+			}
+		}
+	}
+	return out
+}
+
 func genServers(r *common.Rand, kind string) [][2]string {
 	n := r.Intn(9)
 	if r.Chance(12) {
@@ -404,7 +446,16 @@ func runC11(r *common.Rand, tier string, o *common.Out, replay string) {
 		var ops []selOp
 		steps := 1 + r.Intn(6)
 		for s := 0; s < steps; s++ {
-			ops = append(ops, selOp{update: true, servers: genServers(r, kind)})
+			srv := genServers(r, kind)
+			if s > 0 && r.Chance(35) {
+				// the same addresses announced again with other metadata: for the weighted strategy the weights move
+				// between the servers (permuted, or one server drained in favour of another: the sum stays), for the
+				// others the metadata changes in place
+				prev := ops[len(ops)-1-lastSelects(ops)].servers
+				srv = reannounce(r, kind, prev)
+				o.Count("same-addresses-reannounced")
+			}
+			ops = append(ops, selOp{update: true, servers: srv})
 			for k := 0; k < 1+r.Intn(2); k++ {
 				ops = append(ops, selOp{selects: r.Intn(8), key: fmt.Sprintf("k%d", r.Intn(50))})
 			}
